@@ -116,6 +116,31 @@ Theorem C14_forced_mismatch_effective :
 Proof. exact forced_mismatch_effective. Qed.
 Print Assumptions C14_forced_mismatch_effective.
 
+(* ---- 3b. three steps: the vector re-created by the reset arm (and equally the one that was kept)
+   is stored under the version the SAME request asks for: write any contents, repeat the request,
+   and they come back with nothing touched — all versions, formats, data, holes, both overflow modes *)
+Theorem C14_reset_then_same_request_keeps :
+  forall oc size clen q1 q2 d h s sv rv,
+    0 < size -> created oc size clen q1 d h = Some s -> q_entry q2 = EForced ->
+    eff_req oc q1 = Ok sv -> eff_req oc q2 = Ok rv -> (rv <> sv \/ q_fmt q2 <> q_fmt q1) ->
+    exists s', run_entry oc size None q2 s = (s', Ok empty_view) /\
+      forall clen' d' h',
+        run_entry oc size None q2 (fill (req_fam q2) size clen' d' (eff_holes q2 h') s') =
+        (fill (req_fam q2) size clen' d' (eff_holes q2 h') s', Ok {| v_data := d'; v_holes := eff_holes q2 h' |}).
+Proof. exact reset_then_same_request_keeps. Qed.
+Print Assumptions C14_reset_then_same_request_keeps.
+
+Theorem C14_extend_then_same_request_keeps :
+  forall oc size clen clen' q1 q2 d h s sv d' h',
+    0 < size -> created oc size clen q1 d h = Some s ->
+    eff_req oc q1 = Ok sv -> eff_req oc q2 = Ok sv -> q_fmt q2 = q_fmt q1 ->
+    (eff_holes q2 h' = [] -> eff_holes q1 h = []) ->
+    (req_fam q2 = Comp -> d' = [] -> d = []) ->
+    run_entry oc size None q2 (fill (req_fam q2) size clen' d' (eff_holes q2 h') s) =
+    (fill (req_fam q2) size clen' d' (eff_holes q2 h') s, Ok {| v_data := d'; v_holes := eff_holes q2 h' |}).
+Proof. exact extend_then_same_request_keeps. Qed.
+Print Assumptions C14_extend_then_same_request_keeps.
+
 (* ---- 4. the forced import replaces the data ONLY IF version or format differ *)
 Definition C14_forced_only_if_full : Prop :=
   forall oc size clen q1 q2 d h s fault s' r,
